@@ -13,9 +13,9 @@ from vlib.ref import abnf, typecheck
 from vlib.ref import evaluate as ev
 from vlib.runner import HarnessError
 
-# Open finding R: a function argument that starts with "!" or "(" is refused by the
-# library.  While it is open, generators do not produce such arguments (counted).
-EXCLUDE_R = True
+# Finding R (a function argument that starts with "!" or "(" was refused) has been repaired in
+# /repo; the exclusion switch stays for replaying against older trees.
+EXCLUDE_R = False
 
 
 def arg_starts_with_not_or_paren(ast) -> bool:
